@@ -18,6 +18,7 @@ import (
 	"sort"
 	"strings"
 	"sync/atomic"
+	"time"
 
 	"github.com/dolthub/go-mysql-server/memory"
 	"github.com/dolthub/go-mysql-server/sql"
@@ -266,6 +267,7 @@ func rejectionKind(err error) string {
 // outcome is everything observed for one (template, mode, parameterisation).
 type outcome struct {
 	Mode, Kind, Group, Class, SQL string
+	Via                           string // "query" = Engine.Query; "bound" = Engine.BoundQueryPlan + PrepQueryPlanForExecution (the ComExecuteBound path)
 	Pre                           []string
 	Param                         int
 	TwinErr, RoErr                string
@@ -289,8 +291,53 @@ func errText(r *core.Result) string {
 	return ""
 }
 
-func observe(r *core.Run, mode string, t tmpl, p *params, caseNo int) *outcome {
-	o := &outcome{Mode: mode, Kind: t.kind, Group: t.group, Class: t.class, Param: p.idx}
+// execBound runs a statement the way server.Handler.ComExecuteBound does: bind + analyze first
+// (Engine.BoundQueryPlan), then hand the analyzed plan to Engine.PrepQueryPlanForExecution — the
+// second call site of readOnlyCheck.
+func execBound(s *core.Sess, q string) *core.Result {
+	res := &core.Result{SQL: q}
+	done := make(chan struct{})
+	go func() {
+		defer close(done)
+		defer func() {
+			if rec := recover(); rec != nil {
+				res.Panic = core.CapturePanic(rec)
+			}
+		}()
+		ctx := s.Ctx()
+		parsed, _, err := s.Eng.E.Parser.ParseOneWithOptions(ctx, q, sql.LoadSqlMode(ctx).ParserOptions())
+		if err != nil {
+			res.Err = err
+			return
+		}
+		node, err := s.Eng.E.BoundQueryPlan(ctx, q, parsed, nil)
+		if err != nil {
+			res.Err = err
+			return
+		}
+		sch, iter, _, err := s.Eng.E.PrepQueryPlanForExecution(ctx, q, node, nil)
+		if err != nil {
+			res.Err = err
+			return
+		}
+		res.Schema = sch
+		rows, err := sql.RowIterToRows(ctx, iter)
+		if err != nil {
+			res.Err = err
+			return
+		}
+		res.Rows = rows
+	}()
+	select {
+	case <-done:
+		return res
+	case <-time.After(core.StmtTimeout):
+		return &core.Result{SQL: q, TimedOut: true}
+	}
+}
+
+func observe(r *core.Run, mode, via string, t tmpl, p *params, caseNo int) *outcome {
+	o := &outcome{Mode: mode, Via: via, Kind: t.kind, Group: t.group, Class: t.class, Param: p.idx}
 	scope := ""
 	if mode == modeDbRO {
 		scope = "d" // other databases of the engine stay writable in this mode
@@ -347,8 +394,12 @@ func observe(r *core.Run, mode string, t tmpl, p *params, caseNo int) *outcome {
 		o.Inconclusive = "ro-enter: " + err.Error()
 		return o
 	}
-	resW := w.s.Exec(o.SQL)
-	resR := ro.s.Exec(sqlR)
+	var resW, resR *core.Result
+	if via == "bound" {
+		resW, resR = execBound(w.s, o.SQL), execBound(ro.s, sqlR)
+	} else {
+		resW, resR = w.s.Exec(o.SQL), ro.s.Exec(sqlR)
+	}
 	w.leave()
 	ro.leave()
 	if resW.TimedOut || resR.TimedOut {
@@ -358,7 +409,7 @@ func observe(r *core.Run, mode string, t tmpl, p *params, caseNo int) *outcome {
 	o.TwinErr, o.RoErr = errText(resW), errText(resR)
 	if resR.Panic != nil {
 		o.RoPanic = resR.Panic.Value
-		o.RoPanicSig = resR.Panic.Sig()
+		o.RoPanicSig = strings.ReplaceAll(resR.Panic.Sig(), " ", "-") // signatures in findings files are blank-free
 	}
 	if resW.Panic != nil {
 		// the statement panics without any read-only mode: not this property's business
@@ -387,6 +438,9 @@ func observe(r *core.Run, mode string, t tmpl, p *params, caseNo int) *outcome {
 		o.RoRows = core.SortedRows(resR.Rows)
 	}
 	r.Count("rejected-by:"+mode+":"+rejectionKind(resR.Err), boolInt(resR.Err != nil))
+	if via == "bound" {
+		r.Count("bound-path-rejected-by:"+mode+":"+rejectionKind(resR.Err), boolInt(resR.Err != nil))
+	}
 	return o
 }
 
@@ -397,15 +451,19 @@ func boolInt(b bool) int64 {
 	return 0
 }
 
-// sigClass maps (mode, template) to the input class named in a signature. Two input classes are
-// coarse on purpose because the engine treats all their members alike (DESIGN §6 / findings/C42.md):
-// schema-changing statements inside a READ ONLY transaction, and DML inside one.
+// sigClass maps (mode, template) to the input class named in a signature. Three input classes are
+// coarse on purpose because the engine treats all their members alike (findings/C42.md): DDL inside a
+// READ ONLY transaction, CALL inside one, and the listed DDL kinds against a read-only database.
 func sigClass(o *outcome) string {
-	if o.Mode == modeTxnRO && o.Group == "ddl" {
+	switch {
+	case o.Mode == modeTxnRO && o.Group == "ddl":
 		return modeTxnRO + ":ddl"
-	}
-	if o.Mode == modeTxnRO && o.Group == "prep" && strings.Contains(o.Kind, "-table") {
+	case o.Mode == modeTxnRO && o.Group == "prep" && strings.Contains(o.Kind, "-table"):
 		return modeTxnRO + ":ddl"
+	case o.Mode == modeTxnRO && o.Group == "call":
+		return modeTxnRO + ":call"
+	case o.Mode == modeDbRO && dbRoUnguarded[o.Kind]:
+		return modeDbRO + ":ddl-unguarded"
 	}
 	return o.Mode + ":" + o.Kind
 }
@@ -421,7 +479,7 @@ func judge(r *core.Run, o *outcome) {
 		return
 	}
 	wit := func() map[string]any {
-		return map[string]any{"mode": o.Mode, "kind": o.Kind, "param": o.Param, "prelude": o.Pre, "sql": o.SQL,
+		return map[string]any{"mode": o.Mode, "via": o.Via, "kind": o.Kind, "param": o.Param, "prelude": o.Pre, "sql": o.SQL,
 			"twin_error": o.TwinErr, "ro_error": o.RoErr, "twin_changed": o.TwinChanged, "twin_diff": o.TwinDiff,
 			"ro_changed": o.RoChanged, "ro_diff": o.RoDiff, "twin_rows": core.ClipStrings(o.TwinRows, 8), "ro_rows": core.ClipStrings(o.RoRows, 8)}
 	}
@@ -448,7 +506,7 @@ func judge(r *core.Run, o *outcome) {
 			}
 		default:
 			r.Count("writes-rejected:"+o.Mode, 1)
-			r.Distinct("rejected|" + o.Mode + "|" + o.Kind)
+			r.Distinct("rejected|" + o.Mode + "|" + o.Via + "|" + o.Kind)
 		}
 	} else if o.RoPanic != "" {
 		// a panic on a statement that is not a write by observation still is not a delivered result
@@ -477,7 +535,7 @@ func judge(r *core.Run, o *outcome) {
 			r.Violation("read-result-differs:"+o.Mode+":"+o.Kind, wit())
 		default:
 			if len(o.RoRows) > 0 {
-				r.Distinct("read-ok|" + o.Mode + "|" + o.Kind)
+				r.Distinct("read-ok|" + o.Mode + "|" + o.Via + "|" + o.Kind)
 			}
 		}
 	}
@@ -496,9 +554,9 @@ func main() {
 
 	nparams := r.N(2, 30)
 	type job struct {
-		mode string
-		t    tmpl
-		p    *params
+		mode, via string
+		t         tmpl
+		p         *params
 	}
 	var ps []*params
 	for i := 0; i < nparams; i++ {
@@ -508,7 +566,25 @@ func main() {
 	for _, p := range ps {
 		for _, m := range modes {
 			for _, t := range catalogue {
-				jobs = append(jobs, job{m, t, p})
+				jobs = append(jobs, job{m, "query", t, p})
+			}
+		}
+	}
+	// the bound-plan API path (second readOnlyCheck call site): statements without a prelude, first
+	// two parameterisations, the two engine-level modes in full and the other two on DML/DDL only
+	for pi, p := range ps {
+		if pi >= 2 {
+			break
+		}
+		for _, m := range modes {
+			for _, t := range catalogue {
+				if len(t.pre) > 0 || t.group == "prep" || t.group == "txn" || t.group == "set" || t.group == "acct" {
+					continue
+				}
+				if (m == modeTxnRO || m == modeDbRO) && t.class != "w" {
+					continue
+				}
+				jobs = append(jobs, job{m, "bound", t, p})
 			}
 		}
 	}
@@ -520,7 +596,7 @@ func main() {
 		if only != "" && !strings.Contains(j.t.kind, only) {
 			return
 		}
-		o := observe(r, j.mode, j.t, j.p, i)
+		o := observe(r, j.mode, j.via, j.t, j.p, i)
 		outs[i] = o
 		judge(r, o)
 	})
@@ -529,13 +605,13 @@ func main() {
 			if o == nil {
 				continue
 			}
-			fmt.Fprintf(os.Stderr, "p%d %-14s %-38s %-2s twinChanged=%-5v roChanged=%-5v twinErr=%q roErr=%q\n", o.Param, o.Mode, o.Kind, o.Class, o.TwinChanged, o.RoChanged, core.Clip(o.TwinErr, 70), core.Clip(o.RoErr, 70))
+			fmt.Fprintf(os.Stderr, "p%d %-5s %-14s %-38s %-2s twinChanged=%-5v roChanged=%-5v twinErr=%q roErr=%q\n", o.Param, o.Via, o.Mode, o.Kind, o.Class, o.TwinChanged, o.RoChanged, core.Clip(o.TwinErr, 70), core.Clip(o.RoErr, 70))
 		}
 	}
 	// samples: a few real cases
 	for _, want := range []string{"insert-values", "alter-add-column", "select-join", "call-writing-proc", "show-create-table", "drop-database-main"} {
 		for _, o := range outs {
-			if o != nil && o.Kind == want && o.Mode == modeEngineRO && o.Param == 0 {
+			if o != nil && o.Kind == want && o.Mode == modeEngineRO && o.Param == 0 && o.Via == "query" {
 				r.Sample(map[string]any{"mode": o.Mode, "sql": o.SQL, "twin_changed": o.TwinChanged, "twin_diff": o.TwinDiff, "ro_error": o.RoErr, "ro_changed": o.RoChanged, "ro_rows": core.ClipStrings(o.RoRows, 3)})
 			}
 		}
@@ -550,12 +626,14 @@ func main() {
 	if only == "" {
 		for _, m := range modes {
 			r.Floor(r.Counter("writes-by-observation:"+m) >= int64(60*nparams), "mode "+m+": fewer than 60 writes by observation per parameterisation")
-			r.Floor(r.Counter("reads-evaluated:"+m) >= int64(80*nparams), "mode "+m+": fewer than 80 read statements evaluated per parameterisation")
+			r.Floor(r.Counter("reads-evaluated:"+m) >= int64(70*nparams), "mode "+m+": fewer than 70 read statements evaluated per parameterisation")
 		}
 		r.Floor(r.Counter("rejected-by:"+modeEngineRO+":ErrReadOnly") >= int64(100*nparams), "engine.readOnlyCheck (ErrReadOnly) hardly reached")
 		r.Floor(r.Counter("rejected-by:"+modeLocked+":ErrDatabaseWriteLocked") >= int64(100*nparams), "engine.readOnlyCheck (ErrDatabaseWriteLocked) hardly reached")
 		r.Floor(r.Counter("rejected-by:"+modeTxnRO+":ErrReadOnlyTransaction") >= 1, "validateReadOnlyTransaction never rejected anything")
 		r.Floor(r.Counter("rejected-by:"+modeDbRO+":ErrReadOnlyDatabase") >= int64(60*nparams), "validateReadOnlyDatabase hardly reached")
+		r.Floor(r.Counter("bound-path-rejected-by:"+modeEngineRO+":ErrReadOnly") >= 100, "readOnlyCheck in PrepQueryPlanForExecution (ErrReadOnly) hardly reached")
+		r.Floor(r.Counter("bound-path-rejected-by:"+modeLocked+":ErrDatabaseWriteLocked") >= 100, "readOnlyCheck in PrepQueryPlanForExecution (ErrDatabaseWriteLocked) hardly reached")
 	}
 	var cn []string
 	for _, t := range catalogue {
